@@ -168,7 +168,7 @@ theorem plain_qfree {val : List Char} (h : Plain val) : QFree val :=
 def leafChars (n op : String) (val : List Char) : List Char :=
   n.toList ++ ' ' :: (op.toList ++ ' ' :: '"' :: (val ++ ['"']))
 
-theorem leafText_toList (n op v : String) (hv : ∀ c ∈ v.toList, c ≠ '"') :
+theorem leafText_toList (n op v : String) (hv : ∀ c ∈ v.toList, c ≠ '"' ∧ c ≠ '\\') :
     (leafText n op v false).toList = leafChars n op v.toList := by
   simp [leafText, leafChars, String.toList_append, quoteOf_dq hv]
 
